@@ -198,7 +198,7 @@ func (p *c12) aliasRebind(rec *core.Recorder, r *core.Rand) {
 	A := func(v string) string { return "<a:" + v + ":da>" }
 	B := func(v string) string { return "<b:" + v + ":db>" }
 	var want string
-	v := r.Intn(17)
+	v := r.Intn(18)
 	L := func(v string) string { return "<l:" + v + ":dl>" }
 	local := "{% macro x(v, w = 'dl') %}<l:{{ v }}:{{ w }}>{% endmacro %}"
 	// a library whose macros call each other and themselves, by name and through _self
@@ -232,6 +232,12 @@ func (p *c12) aliasRebind(rec *core.Recorder, r *core.Rand) {
 		srcs["main"] = "{% for i in [1] %}{% include 'part' %}{% endfor %}"
 		srcs["part"] = "{% macro inner(v) %}<WRONG>{% endmacro %}{% import 'ls' as " + alias + " %}{{ " + alias + ".outer(" + a + ") }}|{{ " + alias + ".rec(3) }}|{{ " + alias + ".rec2(2) }}"
 		want = sib(a)
+	case 17:
+		// imports and macro definitions at the top of a template that extends a layout serve the blocks of that template
+		srcs["lay12"] = "[{% block c %}dflt{% endblock %}]"
+		srcs["main"] = "{% extends 'lay12' %}{% import 'la' as " + alias + " %}{% from 'lb' import x as bx %}" + local +
+			"{% block c %}{{ " + alias + ".x(" + a + ") }}|{{ bx(" + b + ") }}|{{ x(" + c + ") }}|{{ _self.x(" + c + ") }}{% endblock %}"
+		want = "[" + A(a) + "|" + B(b) + "|" + L(c) + "|" + L(c) + "]"
 	case 16:
 		// from-import of one name, then an aliased import of a different macro: neither disturbs the other nor the local one
 		srcs["main"] = local + "{% from 'la' import x as ax %}{% from 'lb' import x as bx %}{{ ax(" + a + ") }}|{{ bx(" + b + ") }}|{{ x(" + c + ") }}|{{ ax(" + c + ") }}"
